@@ -227,6 +227,7 @@ def check_item(spec):
             res.update(status="inconclusive", note="solver %s/%s" % (v, v2))
     # sensitivity: the energy must not be constant when the count is not
     if int(item_id(spec), 16) % 4 == 0:
+        s.set("rlimit", 0)  # the negative control is not part of the verdict: no resource cap, 60 s timeout
         cmax = st.check(s, count > cmin)
         if cmax == "sat":
             res["negctl"] = st.check(s, E != emin) == "sat"
